@@ -37,7 +37,13 @@ func newSorts() *sorts {
 
 func q(s string) string { return "|" + strings.NewReplacer("|", "!", "\\", "!").Replace(s) + "|" }
 
-func fullTypeStr(t types.Type) string { return types.TypeString(t, nil) }
+func fullTypeStr(t types.Type) string {
+	s := types.TypeString(t, nil)
+	if strings.Contains(s, "any") {
+		s = anyWord.ReplaceAllString(s, "interface{}") // `any` and interface{} are one type
+	}
+	return s
+}
 
 func (s *sorts) typeID(t types.Type) int {
 	k := fullTypeStr(t)
